@@ -42,7 +42,8 @@ class FloatSub(float):
     pass
 
 
-VALUES = ["1", "", "v w", "é", "&=+;", "%41", "#?/", 1, 0, -1, 10 ** 20, 1.5, 0.0, -2.5, 1e300, IntSub(7), FloatSub(2.5), "\x00"]
+VALUES = ["1", "", "v w", "é", "&=+;", "%41", "#?/", 1, 0, -1, 10 ** 20, 1.5, 0.0, -0.0, 1.0, -2.5, 1e300, 1e16, 1e-7, IntSub(7), IntSub(1), FloatSub(2.5),
+          FloatSub(-0.0), "\x00"]
 BAD_VALUES = {"True": (True, "TypeError"), "False": (False, "TypeError"), "None": (None, "TypeError"), "nan": (float("nan"), "ValueError"),
               "inf": (float("inf"), "ValueError"), "-inf": (float("-inf"), "ValueError"), "bytes": (b"x", "TypeError"),
               "bytearray": (bytearray(b"x"), "TypeError"), "object": (object(), "TypeError")}
